@@ -50,7 +50,7 @@ static const char *const op_names[K_N] = {
 // server trigger kinds
 enum { T_TICK = 0, T_ACCEPT = 1, T_CREATED = 2, T_MSG = 3, T_CLOSED = 4, T_DESTROYED = 5 };
 // request directive flags
-enum { DF_RET_NEG = 1, DF_DISCONNECT_SELF = 2, DF_HOLD_REF = 4, DF_SENDV_REPLY = 8 };
+enum { DF_RET_NEG = 1, DF_DISCONNECT_SELF = 2, DF_HOLD_REF = 4, DF_SENDV_REPLY = 8, DF_SLOW = 16 };
 
 static int which;   // 2..6
 
@@ -206,7 +206,7 @@ struct St {
 static St *Gp;
 #define G (*Gp)
 
-static int p_req_full, p_notify_deferred, p_fc_toggled, p_max_size_msg, p_backoff, p_early_req, p_early_out, p_emsgsize,
+static int p_slow_cb, p_req_storm, p_req_full, p_notify_deferred, p_fc_toggled, p_max_size_msg, p_backoff, p_early_req, p_early_out, p_emsgsize,
 	p_send_eagain, p_disc_in_msg, p_ref_outlives, p_closed_retry, p_destroy_alive, p_teardown_kill_armed, p_req_rechecked, p_hostile_shutdown, p_hostile_refused, p_hostile_raw, p_list_walk, p_client_died, p_server_died,
 	p_refused, p_auth_set, p_pollin_checked, p_sendv_recv, p_event_delivered, p_resp_delivered, p_req_delivered, p_kill_fired,
 	p_hostile_conn, p_drain_ok, p_deferred_window, p_owner_checked, p_client_cleanup_checked, p_planted;
@@ -225,6 +225,8 @@ static void init(const char *prop)
 	p_fc_toggled = counter_id("probe", "flow_control_toggled");
 	p_max_size_msg = counter_id("probe", "message_of_exactly_max_size");
 	p_backoff = counter_id("probe", "msg_process_returned_negative");
+	p_slow_cb = counter_id("probe", "msg_process_took_30ms");
+	p_req_storm = counter_id("probe", "more_than_50_requests_queued_at_once");
 	p_early_req = counter_id("probe", "request_dispatched_before_send_returned");
 	p_early_out = counter_id("probe", "response_or_event_read_before_send_returned");
 	p_emsgsize = counter_id("probe", "EMSGSIZE_returned");
@@ -449,6 +451,7 @@ static int32_t cb_msg(qb_ipcs_connection_t *sc, void *data, size_t size)
 		if (exp.size() == size && memcmp(exp.data(), data, size) == 0) break;
 		c->req.pop_front();
 	}
+	if (c->req.size() > 51) count(p_req_storm);
 	if (!c->req.empty()) { m = c->req.front(); c->req.pop_front(); }
 	else if (c->fl_req && !c->fl_req_taken) { m = c->fl_req_m; c->fl_req_taken = true; early = true; count(p_early_req); }
 	else {
@@ -475,6 +478,12 @@ static int32_t cb_msg(qb_ipcs_connection_t *sc, void *data, size_t size)
 		qb_loop_job_add(G.loop, QB_LOOP_LOW, sc, unref_job);
 	}
 	fire(T_MSG, c);
+	if ((m.flags & DF_SLOW) && !failed() && !c->destroyed) {
+		// an application that takes its time over a request: whatever the clients send meanwhile piles up
+		struct timespec ts = { 0, 30000000 };
+		simk_nanosleep(&ts, NULL);
+		count(p_slow_cb);
+	}
 	// the request belongs to the callback until it returns: whatever the client queued meanwhile must not have touched it
 	if (size == m.len && !failed() && !c->destroyed && c->closed_calls == 0) {
 		std::vector<uint8_t> exp; build_msg((uint32_t)c->id, m, exp);
@@ -812,8 +821,8 @@ static void client_send(ClientSt &k, const Op &op, int mode)
 	m.reply_len = (int32_t)std::max<int64_t>(-1, std::min<int64_t>(op.a[1], 1 << 21));
 	m.nevents = (int32_t)std::max<int64_t>(0, std::min<int64_t>(op.a[2], 8));
 	m.evlen = (int32_t)std::max<int64_t>(RES_HDR, std::min<int64_t>(op.a[3], 1 << 21));
-	m.flags = (int32_t)(op.a[4] & 15);
-	if (which == 2 || which == 3 || which == 5) m.flags &= (DF_RET_NEG | DF_SENDV_REPLY);     // histories of disconnect/ref belong to C04
+	m.flags = (int32_t)(op.a[4] & 31);
+	if (which == 2 || which == 3 || which == 5) m.flags &= (DF_RET_NEG | DF_SENDV_REPLY | DF_SLOW);     // histories of disconnect/ref belong to C04
 	if (mode == 2 && m.reply_len < RES_HDR) m.reply_len = RES_HDR;
 	if (m.len < (uint32_t)REQ_HDR + sizeof(Directive)) { m.reply_len = -1; m.nevents = 0; m.flags = 0; }
 	m.serial = ++c.req_serial;
@@ -1562,6 +1571,18 @@ static void gen(const char *prop, RunSpec &spec)
 			if (r.chance(3, 4)) p.add(1, K_C_EVENT_RECV, r.chance(1, 2) ? 0 : (int64_t)r.range(1, 100));
 			if (r.chance(1, 4)) p.add(1, K_C_SLEEP, r.range(100, 30000));
 		}
+	}
+	if ((w == 2 || w == 4) && r.chance(1, 8)) {
+		// "request storm": the application is slow over one request while the client sends 60..300 more without waiting, at
+		// every rate limit: the dispatcher then finds far more queued than it handles in one batch
+		p.add(0, K_S_RATE, T_TICK, -1, 1, r.below(3));
+		p.add(1, K_C_CONNECT, eff);
+		p.add(1, K_C_SEND, 64 + (int64_t)r.below(64), -1, 0, RES_HDR, DF_SLOW);
+		int nst = (int)r.range(60, 300);
+		for (int n = 0; n < nst; n++) p.add(1, K_C_SEND, REQ_HDR + (r.chance(1, 4) ? (int64_t)r.below(48) : 0), -1, 0, RES_HDR, 0);
+		p.add(1, K_C_SLEEP, r.range(1000, 200000));
+		if (r.chance(1, 2)) p.add(1, K_C_SENDV_RECV, 128, 64, 0, RES_HDR, 0, 3000);
+		if (r.chance(3, 4)) p.add(1, K_C_DISCONNECT);
 	}
 	if (server_dies && r.chance(1, 3)) {
 		// the server tears a connection (or the whole service) down on its own initiative and dies part-way through
